@@ -242,7 +242,13 @@ def run(repo, harnesses, workdir, tier, seed, jobs=None, concrete=True):
                'sample': {'obligation': 'kani::' + h['name'], 'what': h.get('what', ''), 'backend': 'kani/cbmc', 'complete': h.get('complete', True), 'bound': h.get('bound')}}
         if r['status'] == 'undecided' and timed_out and not r.get('verdict_line'):
             rec['reason'] = 'timeout'
-        if r['status'] == 'refuted' and concrete:
+        if r['status'] == 'refuted' and concrete == 'replayable-only':
+            # a counterexample made of stub choices cannot be re-executed natively: try the native search first and
+            # fetch the verifier's values only if that finds nothing (check.py calls playback_only)
+            import kreplay
+            if not kreplay.replayable(h['name'])[0]:
+                rec['playback_deferred'] = True
+        if r['status'] == 'refuted' and concrete and not rec.get('playback_deferred'):
             rec['counterexample'] = concrete_playback(crate, h['name'], env, workdir)
             if rec['counterexample'] and rec['counterexample'].get('values'):
                 # replay the verifier's counterexample natively on the real code (tree under check)
@@ -258,6 +264,20 @@ def run(repo, harnesses, workdir, tier, seed, jobs=None, concrete=True):
                           'message texts are outside every property; allocation-failure paths are not explored')
     shutil.rmtree(crate, ignore_errors=True)
     return out
+
+
+def playback_only(repo, name, workdir):
+    """the verifier's counterexample values for one refuted harness (fresh scratch copy)"""
+    crate = make_scratch(repo, workdir)
+    env = dict(os.environ, CARGO_NET_OFFLINE='true', CARGO_TARGET_DIR=TARGET_DIR)
+    try:
+        cx = concrete_playback(crate, name, env, workdir)
+        if cx is not None:
+            import kreplay
+            cx['native_replay'] = {'replayed': False, 'reason': kreplay.replayable(name)[1]}
+        return cx
+    finally:
+        shutil.rmtree(crate, ignore_errors=True)
 
 
 def concrete_playback(crate, name, env, workdir):
